@@ -162,8 +162,15 @@ func (r *Run) execute() int {
 	var wg sync.WaitGroup
 	for _, u := range r.units {
 		for _, o := range u.Obls {
-			if sp := splitOf[u.Decl]; sp != nil {
-				o.Split = sp
+			if sp := splitOf[u.Decl]; len(sp) > 0 {
+				o.Splits = sp
+				o.Split = sp[0]
+			}
+			if len(u.Decl.Reveal) > 0 {
+				o.Reveal = map[string]bool{}
+				for _, n := range u.Decl.Reveal {
+					o.Reveal[n] = true
+				}
 			}
 			o := o
 			wg.Add(1)
